@@ -1,7 +1,7 @@
 import NodisVerif.Model.Proto
 import NodisVerif.Proofs.ProtoWait
 import NodisVerif.Proofs.ProtoRelease
-import NodisVerif.Proofs.TxProgReach
+import NodisVerif.Proofs.TxProgProgress
 /-
   C06 — every command completes: no deadlock.
 
@@ -292,6 +292,31 @@ theorem store_mutex_owner_is_in_section {c : TxProg.Cfg} (hr : ProgReachable c) 
   · exact Or.inr ((hst.conv u).2 h)
 
 theorem a_fresh_record_exists (c : TxProg.Cfg) : ∃ r, assoc c.sh.names r = none := exists_fresh c.sh.names
+
+/-- PROGRESS ON THE PROGRAM MODEL — no deadlock and no permanent stall over record mutexes and `store.mu` together:
+    in every reachable program state in which some transaction is active, some ACTIVE thread has an enabled
+    transition (for a suitable choice of the scheduler: a fresh object for an allocation, `commit` for a command body).
+    Proof: `someone_not_blocked` in the abstraction gives a transaction that is not waiting or waits for a record the
+    protocol considers free; such a thread moves, or is kept out of `store.mu` by a thread that moves
+    (`store_mutex_never_deadlocks`), or the record mutex is still owned by a thread that sits between a lock operation
+    and its event (`record_mutex_owner_is_accounted_for`) and therefore moves. -/
+theorem prog_progress {c : TxProg.Cfg} (hr : ProgReachable c) {t0 : TxProg.Tid} (hact : (c.loc t0).pc ≠ .init) :
+    ∃ t ch, (c.loc t).pc ≠ .init ∧ (TxProg.step c t ch).isSome = true := by
+  obtain ⟨p, _, hf⟩ := hr.full
+  exact full_progress hf hact
+
+/-- the converse of `C05.prog_hold_owns_mutex`: whoever is the writer / a reader of a record's mutex has a protocol
+    hold on the record in that mode, or is between `Lock` and its `lock` event / between the `unlock` event and
+    `Unlock` (`extra`); each thread is a reader of a mutex at most once -/
+theorem record_mutex_owner_is_accounted_for {c : TxProg.Cfg} (hr : ProgReachable c) (u : TxProg.Tid) (r : Rec) :
+    ((c.sh.mu r).writer = some u → (r, Mode.w) ∈ ownedList (c.loc u)) ∧
+    (u ∈ (c.sh.mu r).readers → (r, Mode.r) ∈ ownedList (c.loc u)) ∧ (c.sh.mu r).readers.Nodup := by
+  obtain ⟨p, _, hf⟩ := hr.full
+  exact ⟨(hf.conv u r).1, (hf.conv u r).2, hf.rnd r⟩
+
+/-- hypotheses are satisfiable: in the state of `C05`'s example thread 2 is blocked in `m.RLock()` and thread 1 moves -/
+example : let c := (TxProg.run {} (schedCreate.take 16)).1
+    (c.loc 2).pc ≠ .init ∧ TxProg.step c 2 {} = none ∧ (TxProg.step c 1 {}).isSome = true := by decide
 
 /-- a record lock that is free is granted: the Lock transition at a8 is enabled when nobody owns the mutex -/
 theorem free_record_lock_is_granted (c : TxProg.Cfg) (t : TxProg.Tid) (ch : TxProg.Choice)
